@@ -399,7 +399,12 @@ with remap_interface (ord : list (str * id) -> list (str * id)) (cf : nat) (fuel
       iface_set name existing ;;;
       ret existing
     | None =>
-      r <-- remapped_get (TInterface i) ;;;
+      (* An interface without an identifier is a requirement of the one place that mentions it: every mention gets
+         its own copy, it is neither looked up in nor recorded in [remapped] (repair of the shared nested copy). *)
+      r <-- match i_id x with
+            | Some _ => remapped_get (TInterface i)
+            | None => ret None
+            end ;;;
       match r with
       | Some (TInterface y) => ret y
       | Some _ => panic
@@ -412,9 +417,9 @@ with remap_interface (ord : list (str * id) -> list (str * id)) (cf : nat) (fuel
                        end) (i_uses x) ;;;
         es <-- mapM (fun nk : str * kind => k' <-- remap_item_kind ord cf f t (snd nk) ;;; ret (fst nk, k')) (i_exports x) ;;;
         y <-- add_if (mkif (i_id x) us es) ;;;
-        remapped_new (TInterface i) (TInterface y) ;;;
         match i_id x with
-        | Some name => iface_new name y                          (* assert!(prev.is_none()) *)
+        | Some name => remapped_new (TInterface i) (TInterface y) ;;;   (* assert!(prev.is_none()) *)
+                       iface_new name y                          (* assert!(prev.is_none()) *)
         | None => ret tt
         end ;;;
         ret y
